@@ -385,6 +385,9 @@ def place_expr(body, place, depth=0, _seen=None):
     _seen = _seen | {(local, tuple(fields))}
     if 1 <= local <= body.argc:
         return ("path", ("arg", local), fields, downs)
+    if local in mut_borrowed(body) and not fields and not downs and body.locals[local] in ("bool", "u8", "u16", "u32", "u64", "usize", "i32", "i64"):
+        # a scalar whose address is taken mutably (e.g. captured by a closure that assigns it) is not a constant
+        return ("path", ("local", local), fields, downs)
     alld = [d for d in body.defs().get(local, []) if d[0] in ("stmt", "call")]
     defs = [d for d in alld if d[0] == "call" or len(d[3]) == 1]
     # field-wise initialisation of a tuple/struct local: `_x.0 = a; _x.1 = b`
@@ -417,6 +420,21 @@ def place_expr(body, place, depth=0, _seen=None):
         felems = felems[1:]
         fields = fields[1:]
     return _project(e, fields, downs)
+
+
+_MUTB = {}
+
+
+def mut_borrowed(body):
+    k = id(body)
+    if k not in _MUTB:
+        out = set()
+        for blk in body.blocks:
+            for s in blk["s"]:
+                if s[0] == "=" and s[2][0] in ("refmut", "rawptr") and len(s[2][1]) == 1:
+                    out.add(s[2][1][0])
+        _MUTB[k] = out
+    return _MUTB[k]
 
 
 def _project(e, fields, downs):
